@@ -16,7 +16,10 @@ open Umya.Crypto Umya.PwHash Umya.Proto
 
 def P : Prims := Umya.PrimsExec.exec
 
-def preFields : Nat → PwFields
+/-- `pre / 3` says which option switches the caller uses after the password setter (harness `post_flags`);
+the model's switches do not touch the password fields, so only `pre % 3` matters here -/
+def preFields (n : Nat) : PwFields :=
+  match n % 3 with
   | 0 => PwFields.empty
   | 1 => { PwFields.empty with password := some "CC1A".toList }
   | _ => ⟨some "SHA-1".toList, some "AAAA".toList, some "BBBB".toList, some 5, some "CC1A".toList⟩
